@@ -267,7 +267,7 @@ fn gen_medium(rng: &mut Rng) -> Medium {
         nums: if rng.chance(1, 2) { NumDelivery::Typed } else { NumDelivery::Widened },
         newtype: if rng.chance(1, 2) { NewtypeMode::Transparent } else { NewtypeMode::Wrapped },
         human_readable: rng.chance(1, 2),
-        size_hint: [SizeHint::None, SizeHint::Exact, SizeHint::Lower][rng.usize_below(3)],
+        size_hint: [SizeHint::None, SizeHint::Exact, SizeHint::Lower, SizeHint::Upper][rng.usize_below(4)],
         filter_fields: rng.chance(1, 6),
         check_names: rng.chance(1, 5),
     }
@@ -281,6 +281,18 @@ fn random_perm(rng: &mut Rng, n: usize) -> Vec<u8> {
 
 /// Keys one small edit away from a real field name of the record: the ones a sloppy comparison
 /// (prefix, case-insensitive, trimmed, NUL-terminated) would take for the field.
+/// Characters a sloppy comparison might strip from a key: common sigils and separators, plus every
+/// char literal found in the sources of the tree under test.
+pub fn affix_chars() -> Vec<char> {
+    let mut v: Vec<char> = "@$_-#.:!~*%&/+=?^|<>'`,;".chars().collect();
+    for c in harvested_chars() {
+        if !v.contains(c) && !c.is_alphanumeric() {
+            v.push(*c);
+        }
+    }
+    v
+}
+
 pub fn near_miss_keys(field: &str) -> Vec<String> {
     let mut v = vec![
         format!("{}\0", field),
@@ -291,6 +303,11 @@ pub fn near_miss_keys(field: &str) -> Vec<String> {
         format!("{}s", field),
         format!("{}{}", field, field),
     ];
+    for c in affix_chars() {
+        v.push(format!("{}{}", c, field));
+        v.push(format!("{}{}", field, c));
+        v.push(format!("{}{}{}", c, c, field));
+    }
     if field.len() > 1 {
         v.push(field[..field.len() - 1].to_string());
         v.push(field[1..].to_string());
@@ -506,7 +523,7 @@ pub fn sweep_plans(reg: &[TypeEntry]) -> Vec<Plan> {
         // unknown entry at every position, through every key form, on both keyed framings
         for framing in [Framing::KeyedSelfDelim, Framing::KeyedLenPrefixed] {
             for (ki, key_form) in [KeyForm::Str, KeyForm::Borrowed, KeyForm::String, KeyForm::Bytes, KeyForm::BorrowedBytes, KeyForm::Index].into_iter().enumerate() {
-                let medium = Medium { framing, key_form, size_hint: [SizeHint::Lower, SizeHint::None, SizeHint::Exact][ki % 3], ..Medium::DEFAULT };
+                let medium = Medium { framing, key_form, size_hint: [SizeHint::Lower, SizeHint::None, SizeHint::Exact, SizeHint::Upper][ki % 4], ..Medium::DEFAULT };
                 let base = Plan { ty: e.name.clone(), gen: gen.clone(), patch: None, medium, wfaults: vec![], rfaults: vec![], retry: false, in_place: false };
                 let p = &e.probes[probe_index(&medium)];
                 let n = p.records.first().map(|r| r.1.len()).unwrap_or(0);
@@ -1161,4 +1178,33 @@ static HARVEST: std::sync::OnceLock<Vec<String>> = std::sync::OnceLock::new();
 
 pub fn harvested() -> &'static [String] {
     HARVEST.get_or_init(harvest_literals)
+}
+
+static HARVEST_CHARS: std::sync::OnceLock<Vec<char>> = std::sync::OnceLock::new();
+
+/// Char literals ('x') found in the sources of the tree under test, sorted and de-duplicated.
+pub fn harvested_chars() -> &'static [char] {
+    HARVEST_CHARS.get_or_init(|| {
+        let dir = std::env::var("VERIF_REPO_SRC").unwrap_or_else(|_| "/repo/src".to_string());
+        let mut files: Vec<std::path::PathBuf> = match std::fs::read_dir(&dir) {
+            Ok(rd) => rd.filter_map(|e| e.ok()).map(|e| e.path()).filter(|p| p.extension().map(|x| x == "rs").unwrap_or(false)).collect(),
+            Err(_) => return Vec::new(),
+        };
+        files.sort();
+        let mut out = Vec::new();
+        for f in files {
+            if let Ok(text) = std::fs::read_to_string(&f) {
+                let b: Vec<char> = text.chars().collect();
+                for i in 0..b.len().saturating_sub(2) {
+                    if b[i] == '\'' && b[i + 2] == '\'' && b[i + 1] != '\\' && (i == 0 || !b[i - 1].is_alphanumeric()) {
+                        out.push(b[i + 1]);
+                    }
+                }
+            }
+        }
+        out.sort();
+        out.dedup();
+        out.truncate(64);
+        out
+    })
 }
